@@ -1,1 +1,258 @@
-// harnesses for automerge/src/sync/bloom.rs
+// G-BLOOM: Bloom filter kernels (child module of automerge::sync::bloom).
+use super::*;
+use crate::storage::parse::Input;
+
+fn any_hash() -> ChangeHash {
+    ChangeHash(kani::any())
+}
+
+/// No false negatives, one entry: for every 256-bit hash h, from_hashes([h]).contains_hash(h).
+#[kani::proof]
+#[kani::unwind(9)]
+fn bloom_no_false_negative_1() {
+    let h = any_hash();
+    let f = BloomFilter::from_hashes([h].iter());
+    assert!(f.contains_hash(&h));
+    assert_eq!(f.num_entries, 1);
+    assert_eq!(f.bits.len(), 2);
+    kani::cover!(f.bits[0] != 0 && f.bits[1] != 0);
+    std::mem::forget(f);
+}
+
+/// No false negatives, two entries: both members are found whatever the two hashes are.
+#[kani::proof]
+#[kani::unwind(9)]
+fn bloom_no_false_negative_2() {
+    let h1 = any_hash();
+    let h2 = any_hash();
+    let f = BloomFilter::from_hashes([h1, h2].iter());
+    assert!(f.contains_hash(&h1));
+    assert!(f.contains_hash(&h2));
+    assert_eq!(f.bits.len(), 3);
+    kani::cover!(h1.0[0] != h2.0[0]);
+    std::mem::forget(f);
+}
+
+/// Three entries (thorough).
+#[kani::proof]
+#[kani::unwind(9)]
+fn bloom_no_false_negative_3() {
+    let h1 = any_hash();
+    let h2 = any_hash();
+    let h3 = any_hash();
+    let f = BloomFilter::from_hashes([h1, h2, h3].iter());
+    assert!(f.contains_hash(&h1));
+    assert!(f.contains_hash(&h2));
+    assert!(f.contains_hash(&h3));
+    assert_eq!(f.bits.len(), 4);
+    kani::cover!(h1.0[0] != h2.0[0] && h2.0[4] != h3.0[4]);
+    std::mem::forget(f);
+}
+
+/// Membership survives the wire: parse(to_bytes(f)) has the same parameters and bits and still
+/// contains the member (1 entry, any hash).
+#[kani::proof]
+#[kani::unwind(9)]
+fn bloom_wire_roundtrip_1() {
+    let h = any_hash();
+    let f = BloomFilter::from_hashes([h].iter());
+    let bytes = f.to_bytes();
+    assert_eq!(bytes.len(), 5);
+    let r = BloomFilter::parse(Input::new(&bytes));
+    match r {
+        Ok((rest, g)) => {
+            assert!(rest.is_empty());
+            assert_eq!(g.num_entries, f.num_entries);
+            assert_eq!(g.num_bits_per_entry, f.num_bits_per_entry);
+            assert_eq!(g.num_probes, f.num_probes);
+            assert_eq!(g.bits.len(), 2);
+            assert_eq!(g.bits[0], f.bits[0]);
+            assert_eq!(g.bits[1], f.bits[1]);
+            assert!(g.contains_hash(&h));
+            kani::cover!(true);
+            std::mem::forget(g);
+        }
+        Err(_) => panic!("a filter we encoded must decode"),
+    }
+    std::mem::forget(f);
+    std::mem::forget(bytes);
+}
+
+/// The empty filter encodes to nothing, decodes from nothing, and contains nothing.
+#[kani::proof]
+#[kani::unwind(4)]
+fn bloom_empty_filter() {
+    let f = BloomFilter::from_hashes(std::iter::empty::<ChangeHash>());
+    let bytes = f.to_bytes();
+    assert!(bytes.is_empty());
+    let h = any_hash();
+    assert!(!f.contains_hash(&h));
+    match BloomFilter::parse(Input::new(&bytes)) {
+        Ok((_, g)) => {
+            assert_eq!(g.num_entries, 0);
+            assert!(!g.contains_hash(&h));
+            kani::cover!(true);
+        }
+        Err(_) => panic!("empty input is the empty filter"),
+    }
+}
+
+/// contains_hash is a total function on every filter the decoder can produce: arbitrary wire
+/// entry count and bits-per-entry, bit array of NB bytes, probe count P (one harness per (NB, P):
+/// a symbolic probe count makes Vec::with_capacity a symbolic-size allocation, which CBMC does
+/// not finish). No panic, no division by zero, every probe inside the bit array.
+fn contains_total<const NB: usize, const P: u32>() {
+    let num_entries: u32 = kani::any();
+    let num_bits_per_entry: u32 = kani::any();
+    let b: [u8; NB] = kani::any();
+    let f = BloomFilter {
+        num_entries,
+        num_bits_per_entry,
+        num_probes: P,
+        bits: b.to_vec(),
+    };
+    let h = any_hash();
+    let r = f.contains_hash(&h);
+    kani::cover!(num_entries > 0);
+    kani::cover!(!r);
+    if num_entries > 0 && NB > 0 {
+        let probes = f.get_probes(&h);
+        // get_probes always pushes the first probe, so P = 0 still yields one
+        assert_eq!(probes.len(), if P == 0 { 1 } else { P as usize });
+        let mut i = 0;
+        while i < probes.len() {
+            assert!((probes[i] as usize) < 8 * NB);
+            i += 1;
+        }
+        std::mem::forget(probes);
+    }
+    std::mem::forget(f);
+}
+
+macro_rules! contains_total_harness {
+    ($name:ident, $nb:expr, $p:expr, $unwind:expr) => {
+        #[kani::proof]
+        #[kani::unwind($unwind)]
+        fn $name() {
+            contains_total::<$nb, $p>()
+        }
+    };
+}
+contains_total_harness!(bloom_contains_total_b0_p0, 0, 0, 3);
+contains_total_harness!(bloom_contains_total_b0_p1, 0, 1, 3);
+contains_total_harness!(bloom_contains_total_b0_p7, 0, 7, 9);
+contains_total_harness!(bloom_contains_total_b1_p0, 1, 0, 3);
+contains_total_harness!(bloom_contains_total_b1_p1, 1, 1, 3);
+contains_total_harness!(bloom_contains_total_b1_p2, 1, 2, 4);
+contains_total_harness!(bloom_contains_total_b1_p7, 1, 7, 9);
+contains_total_harness!(bloom_contains_total_b2_p2, 2, 2, 4);
+contains_total_harness!(bloom_contains_total_b2_p7, 2, 7, 9);
+contains_total_harness!(bloom_contains_total_b3_p3, 3, 3, 5);
+contains_total_harness!(bloom_contains_total_b3_p7, 3, 7, 9);
+contains_total_harness!(bloom_contains_total_b3_p8, 3, 8, 10);
+
+/// The decoder is total on every byte string of a fixed length, and what it accepts is
+/// consistent: bits length = ceil(entries * bits_per_entry / 8) and nothing beyond the input.
+fn parse_total<const N: usize>() {
+    let bytes: [u8; N] = kani::any();
+    match BloomFilter::parse(Input::new(&bytes)) {
+        Ok((rest, f)) => {
+            assert!(f.bits.len() <= N - 3);
+            assert_eq!(f.bits.len() + rest.unconsumed_bytes().len() + 3 <= N, true);
+            let want = (f.num_entries as u64 * f.num_bits_per_entry as u64 + 7) / 8;
+            assert_eq!(f.bits.len() as u64, want);
+            kani::cover!(N == 3 || f.bits.len() > 0);
+            kani::cover!(f.bits.len() == 0);
+            std::mem::forget(f);
+        }
+        Err(_) => {
+            kani::cover!(true);
+        }
+    }
+}
+
+#[kani::proof]
+#[kani::unwind(8)]
+fn bloom_parse_total_len3() {
+    parse_total::<3>()
+}
+
+#[kani::proof]
+#[kani::unwind(8)]
+fn bloom_parse_total_len4() {
+    parse_total::<4>()
+}
+
+#[kani::proof]
+#[kani::unwind(9)]
+fn bloom_parse_total_len5() {
+    parse_total::<5>()
+}
+
+#[kani::proof]
+#[kani::unwind(10)]
+fn bloom_parse_total_len6() {
+    parse_total::<6>()
+}
+
+/// Through the public entry points: decode N untrusted bytes whose first two bytes (entry count,
+/// bits per entry) are fixed so that the bit array has a concrete length, the probe-count byte and
+/// the bit bytes are arbitrary; then query with an arbitrary hash. Never panics.
+fn decode_then_query<const N: usize, const E: u8, const B: u8>() {
+    let mut bytes: [u8; N] = kani::any();
+    bytes[0] = E;
+    bytes[1] = B;
+    kani::assume(bytes[2] < 0x80);
+    // BloomFilter::try_from is parse + map_err(to_string); the Display machinery of the (here
+    // unreachable) error path costs 8 GB and 230 s under CBMC, so the decoder is entered directly.
+    match BloomFilter::parse(Input::new(&bytes[..])) {
+        Ok((_, f)) => {
+            let h = any_hash();
+            let r = f.contains_hash(&h);
+            kani::cover!(r || f.bits.is_empty());
+            kani::cover!(!r);
+            std::mem::forget(f);
+        }
+        Err(_) => panic!("these parameters fit the input exactly"),
+    }
+}
+
+#[kani::proof]
+#[kani::unwind(4)]
+fn bloom_decode_then_query_e1_b0() {
+    decode_then_query::<3, 1, 0>()
+}
+
+/// Step budget (C17): the probe count is an arbitrary u32 from the wire; the work done by one
+/// membership query must stay proportional to the size of the received filter. The unwind bound
+/// 8*NB + 2 IS the budget: CBMC's unwinding assertion proves no loop iterates more often, or
+/// returns the probe count that does.
+fn probe_budget<const NB: usize>() {
+    let b: [u8; NB] = kani::any();
+    let f = BloomFilter {
+        num_entries: kani::any(),
+        num_bits_per_entry: kani::any(),
+        num_probes: kani::any(),
+        bits: b.to_vec(),
+    };
+    let h = any_hash();
+    let probes = f.get_probes(&h);
+    assert!(probes.len() <= 8 * NB);
+    assert!(probes.capacity() <= 8 * NB);
+    kani::cover!(probes.len() == 8 * NB);
+    kani::cover!(probes.len() == 1);
+    std::mem::forget(probes);
+    std::mem::forget(f);
+}
+
+#[kani::proof]
+#[kani::unwind(10)]
+fn bloom_probe_budget_b1() {
+    probe_budget::<1>()
+}
+
+#[kani::proof]
+#[kani::unwind(18)]
+fn bloom_probe_budget_b2() {
+    probe_budget::<2>()
+}
